@@ -74,3 +74,12 @@ pub fn canary_spin(flag: &dyn Fn() -> bool) -> usize {
     }
     n
 }
+
+
+/// O-ORDER: a sequence of terms / rendered strings is reordered, and an element is inserted
+pub struct Term;
+pub fn canary_reorder(terms: &mut Vec<Term>, strings: Vec<String>) -> Vec<String> {
+    terms.swap_remove(0);
+    terms.insert(0, Term);
+    strings.into_iter().rev().collect()
+}
